@@ -36,7 +36,8 @@ def detect_only():
         sh(f"git -C /repo worktree remove --force {wt}")
         shutil.rmtree(wt, ignore_errors=True)
         sh(f"git -C /repo worktree add -q --detach {wt} HEAD")
-        rc, out = sh(f"git apply --3way {d}/patch.diff && git reset -q", cwd=wt)
+        patch = f"{d}/patch.rebased.diff" if os.path.exists(f"{d}/patch.rebased.diff") else f"{d}/patch.diff"
+        rc, out = sh(f"git apply --3way {patch} && git reset -q", cwd=wt)
         if rc != 0:
             meta["detection"] = {"error": "patch does not apply to /repo HEAD", "out": out[-400:]}
         else:
